@@ -389,7 +389,7 @@ pub fn run_c01(ctx: &Ctx) -> Report {
         rep.add_space("E4.triples", u.describe(), &st);
         rep.extra.insert("triple_results".into(), json!({"maximize_none": st.local.counters[0], "maximize_some": st.local.counters[1], "minimize_none": st.local.counters[2], "minimize_some": st.local.counters[3]}));
     }
-    // (d) large inputs: stack depth and super-linear behaviour (watchdog: 5 s per input)
+    // (d) large inputs: stack depth and super-linear behaviour (watchdog: 5 s of thread CPU time per input)
     {
         let items = big_inputs();
         let sizes: Vec<usize> = items.iter().map(|b| b.len()).collect();
@@ -400,6 +400,7 @@ pub fn run_c01(ctx: &Ctx) -> Report {
     rep.collector = coll;
     // (e) no public call panics on any value reachable in the E3 harnesses
     let sum = run_harnesses(ctx, history::std_set(ctx), &["c01."], &mut rep, false);
+    super::counts::run_count_histories(ctx, &mut rep, &["c01."]);
     fill_report(&mut rep, &sum, "C01: every mutator/getter/serialiser call on every reachable value returns");
     keep_only(&mut rep, &["c01."]);
     #[cfg(feature = "likelysubtags")]
@@ -407,8 +408,8 @@ pub fn run_c01(ctx: &Ctx) -> Report {
         // a deadlock or a livelock between concurrent callers is a hang: shuttle reports both
         super::conc::run_family_mode(ctx, fam, "c01.schedule", &mut rep, true);
     }
-    rep.rule = "Totality. (a) E1 token trees + E2 skeletons and edit neighbourhoods through 27 text-accepting entry points of both crates (parsers, FromStr, canonicalize, try_from_iter, ExtensionsMap, the four subtag constructors); (b) every byte string of length <= 2 and boundary-class strings to length 9 as the argument of 15 getter/setter functions on three receivers; (c) every (language, script, region) of the CLDR universe through maximize, minimize and character_direction; (d) a fixed list of large inputs under a 5 s per-case watchdog; (e) every call made in the E3 harnesses. The oracle is: the call returns (Ok or Err), no panic, no hang, child exit status 0. distinct_nontrivial = inputs of the E1/E2 trees on which no entry point panicked (distinct by construction).".into();
-    rep.assumptions = vec!["a hang is a case that stays current for more than 5 s; abort/stack overflow is observed through the worker's exit status".into()];
+    rep.rule = "Totality. (a) E1 token trees + E2 skeletons and edit neighbourhoods through 27 text-accepting entry points of both crates (parsers, FromStr, canonicalize, try_from_iter, ExtensionsMap, the four subtag constructors); (b) every byte string of length <= 2 and boundary-class strings to length 9 as the argument of 15 getter/setter functions on three receivers; (c) every (language, script, region) of the CLDR universe through maximize, minimize and character_direction; (d) a fixed list of large inputs under the per-case watchdog (5 s of thread CPU time); (e) every call made in the E3 harnesses. The oracle is: the call returns (Ok or Err), no panic, no hang, child exit status 0. distinct_nontrivial = inputs of the E1/E2 trees on which no entry point panicked (distinct by construction).".into();
+    rep.assumptions = vec!["a hang is a case on which the executing thread spends more than 5 s of CPU time (thread clock, so machine load does not matter), or that stays current for 120 s of wall-clock time while its thread uses no CPU (blocked); abort/stack overflow is observed through the worker's exit status".into()];
     rep
 }
 
@@ -425,6 +426,7 @@ pub fn run_c04(ctx: &Ctx) -> Report {
     }
     run_parts(ctx, &mut rep);
     let sum = run_harnesses(ctx, history::std_set(ctx), &["c04."], &mut rep, false);
+    super::counts::run_count_histories(ctx, &mut rep, &["c04."]);
     fill_report(&mut rep, &sum, "C04: to_string of every reachable value");
     keep_only(&mut rep, &["c04."]);
     #[cfg(feature = "likelysubtags")]
@@ -559,6 +561,7 @@ pub fn run_c05(ctx: &Ctx) -> Report {
     run_parts(ctx, &mut rep);
     subtag_roundtrips(ctx, &mut rep);
     let sum = run_harnesses(ctx, history::std_set(ctx), &["c05."], &mut rep, false);
+    super::counts::run_count_histories(ctx, &mut rep, &["c05."]);
     fill_report(&mut rep, &sum, "C05: parse(to_string(x)) == x on every reachable value");
     keep_only(&mut rep, &["c05."]);
     rep.rule = "parse(x.to_string()) == x with the library's own equality, on every value of three routes: every accepted input of the E1/E2 spaces (Locale, LanguageIdentifier, ExtensionsMap; canonicalize idempotent), the complete from_parts product (24 ids x 781 variant lists x 480 extension shapes), every state of the five E3 harnesses; and on every Script (26^4 x 16 case masks), every Region, every 2-3 letter Language, and 5-8 letter languages / variants over reduced alphabets. No reference model is involved. distinct_nontrivial = accepted tree inputs + product values + valid subtags + distinct E3 model values.".into();
@@ -686,6 +689,7 @@ pub fn run_c17(ctx: &Ctx) -> Report {
         rep.collector = coll;
     }
     let sum = run_harnesses(ctx, history::std_set(ctx), &["c17."], &mut rep, false);
+    super::counts::run_count_histories(ctx, &mut rep, &["c17."]);
     fill_report(&mut rep, &sum, "C17: from_parts(into_parts(x)) == x on every reachable value");
     keep_only(&mut rep, &["c17."]);
     rep.rule = "from_parts(into_parts(x)) == x (Locale: extension string re-parsed with ExtensionsMap::from_str) on every accepted input of the E1/E2 spaces, every value of the from_parts product (where it must also equal parsing the joined string, for every order/duplication of up to 4 variants) and every state of the E3 harnesses; integer form -> from_raw_unchecked -> equal subtag with intact text on every valid subtag of the C15 byte-string spaces; injectivity of the integer form by sorting the integers of complete subtag domains. distinct_nontrivial = accepted tree inputs + product values + distinct E3 model values.".into();
@@ -841,6 +845,7 @@ pub fn run_c12(ctx: &Ctx) -> Report {
     }
     // route 1: mutation histories (also fills the route-independence table: c12.route)
     let sum = run_harnesses(ctx, history::std_set(ctx), &["c12."], &mut rep, true);
+    super::counts::run_count_histories(ctx, &mut rep, &["c12."]);
     fill_report(&mut rep, &sum, "C12: route independence (the same model value reached with two representations is a violation) and per-state ==/hash/cmp/&str checks");
     // the value set R, keyed by the *structural* Debug text so that nothing is merged through
     // the library's own Eq/Hash
